@@ -392,7 +392,7 @@ def dceloopAnswer (ws : List String) : String :=
   match parseUS ws with
   | some body =>
     let lvs : List (Nat × Operand × Operand) := [(0, .lit 0, .var 8), (1, .var 7, .var 9)]
-    if (keptLoopVars true lvs body).contains 1 then "kept" else "dropped"
+    if (keptLoopVars true lvs body []).contains 1 then "kept" else "dropped"
   | none => "bad-line"
 
 def licmAnswer (ws : List String) : String :=
